@@ -17,8 +17,12 @@ def run(ctx):
     progs = gwprograms.c10_programs(rng, 10 if ctx.quick else 80)
     opts = [{"post_yields": True}, {"post_yields": True, "chunking": "random"}, {"post_yields": False},
             {"post_yields": True, "line_level": LINE_FUNCS}]
+    # the whole family once more on a gateway whose string coercion was reconfigured (nothing about channels, closes, errors or
+    # remote_exec may depend on the coercion switches)
+    opts.append({"post_yields": True, "reconfigure": (False, True)})
     if not ctx.quick:
         opts.append({"post_yields": True, "transport": "socket", "chunking": "random"})
+        opts.append({"post_yields": False, "reconfigure": (True, True)})
     jobs = gc.jobs_for(progs, 24 if ctx.quick else 120, 10 if ctx.quick else 40, ctx.seed, opts)
     # preemption-bounded systematic search (every schedule with <= 1 preemption, yields before and after each operation)
     searches = [(p, 1, 250 if ctx.quick else 6000, {"post_yields": True}) for p in progs[: 6 if ctx.quick else 14]]
